@@ -43,6 +43,11 @@ CHECKS = {
    text="Every CUE source of the repository (<=20 KiB) and every generated seed program, unmutated, plus every single-gap layout mutation (5 fillers: nothing, space, newline, blank line, line comment) at every token gap of the seed set and of a spread of corpus files: if the input parses, format.Source must succeed, the position-free syntax tree (literals by value) and the comment inventory per top-level declaration must be unchanged, formatting twice must equal formatting once; with Simplify() the output must parse, be idempotent and evaluate to the same canon value.",
    note="Trusts the reflection-based AST dump and package canon. Comment slots inside a declaration are not compared (only presence, text and owning top-level declaration). Known formatter findings (line comments in slot-less positions, trailing-comma idempotence, two -s rewrites) are in known_findings.jsonl.",
    ref="DESIGN.md §3 C08"),
+ "C10": dict(engine="enum",
+   technique="bounded-exhaustive enumeration of JSON documents (grammar by production, single-character edits of seeds) and of generator data through CUE's JSON decoder and encoder, with Go's encoding/json as independent reader",
+   text="Every JSON document of the bounded grammar (all escape forms, surrogate pairs, raw U+2028/2029/FEFF, exponent spellings, -0, 1e400, 21-digit integers, duplicate and empty keys, whitespace variants, nesting to depth 2-3, concatenated streams) and every single-character edit of 30 seed documents is read by json.Extract/BuildExpr and by encoding/json: validity verdicts must agree and trees must be equal; the decoded value is marshalled again and re-read. Every generator value (hostile strings and keys, number boundary spellings, containers) is marshalled by Value.MarshalJSON, must be valid, free of HTML escaping, read back equal by encoding/json and by CUE itself.",
+   note="Trusts Go encoding/json (UseNumber, token stream). Unclaimed: lone surrogate escapes, documents that are not valid UTF-8. Known finding: raw U+FEFF inside strings.",
+   ref="DESIGN.md §3 C10"),
  "C09": dict(engine="enum",
    technique="bounded-exhaustive enumeration of token strings / strings x quoting forms / literal spellings on the real scanner, parser and literal package (explicit-state, no sampling)",
    text="Every token string up to the length bound, every string over a hostile rune alphabet under every quoting form and every literal-candidate spelling up to the bound is executed on the real code and checked against position invariants, Unquote(Quote(s))==s and three-way validity agreement. Exhaustive within the stated alphabet/bound; says nothing beyond it.",
